@@ -250,7 +250,14 @@ func (vc *VC) frameFormula(st *State) *Term {
 	}
 	var regs []region
 	for _, m := range vc.con.Modifies {
-		regs = append(regs, vc.regionsOf(env, m.Expr)...)
+		rs := vc.regionsOf(env, m.Expr)
+		if m.Guard != nil {
+			g := vc.specBool(env, m.Guard.Expr)
+			for i := range rs {
+				rs[i].guard = g
+			}
+		}
+		regs = append(regs, rs...)
 	}
 	next0 := vc.entryHeap("$nextArr")
 	var conj []*Term
@@ -291,7 +298,7 @@ func (vc *VC) frameFormula(st *State) *Term {
 		for _, r := range regs {
 			if r.wholeMap != nil {
 				if strings.HasPrefix(name, "Map["+typeKey(r.wholeMap)+"]") {
-					allowed = append(allowed, Eq(a, r.mapRef))
+					allowed = append(allowed, guardAnd(r.guard, Eq(a, r.mapRef)))
 				}
 				continue
 			}
@@ -301,7 +308,7 @@ func (vc *VC) frameFormula(st *State) *Term {
 			l := layout(r.elem)
 			for c := r.lo; c < r.hi; c++ {
 				if heapNameFor(r.elem, l[c]) == name {
-					allowed = append(allowed, And(Eq(a, r.arr), Le(r.ilo, i), Lt(i, r.ihi)))
+					allowed = append(allowed, guardAnd(r.guard, And(Eq(a, r.arr), Le(r.ilo, i), Lt(i, r.ihi))))
 				}
 			}
 		}
@@ -309,4 +316,11 @@ func (vc *VC) frameFormula(st *State) *Term {
 		conj = append(conj, Forall([]*Term{a, i}, Implies(And(Lt(a, next0), differ), Or(allowed...))))
 	}
 	return And(conj...)
+}
+
+func guardAnd(g, t *Term) *Term {
+	if g == nil {
+		return t
+	}
+	return And(g, t)
 }
